@@ -18,7 +18,7 @@ variable {arrivals : List (ℚ × Int)} {a : A} {outs : List (Int × ℚ)} {q : 
 /-- what a sound configuration step delivers -/
 def StepOK (size : Int → Nat) (rate : ℚ) (arrivals : List (ℚ × Int)) (a : A) (q : QEntry ℚ) (outs : List (Int × ℚ))
     (a' : A) (new : List (Int × ℚ)) : Prop :=
-  AInv size rate arrivals a' q.time (outs ++ new) ∧ a'.mu + 1 = a.mu ∧
+  AInv size rate arrivals a' q.time (outs ++ new) ∧ a'.mu + 1 ≤ a.mu ∧
   ∃ acts insI, a'.putIds = a.putIds ++ insI ∧
     Fifo.runActs (Port.dev (cfg rate)) (toF size a q.time) acts =
       .ok (toF size a' q.time, insI.map Int.toNat, new.map (·.1.toNat))
@@ -349,6 +349,57 @@ theorem stepOK_srcPutWait (hi : AInv size rate arrivals a q.time outs) (hq : IsM
   · intro p; simp only [SPhase.todo, ht.1, departures_shift size rate p q.time gap]
   · simp [SPhase.mu]; omega
 
+theorem tx_eq_zero (hr : ¬ 0 < rate) (id : Int) : tx size rate id = 0 := by
+  unfold tx txDelay
+  rw [zero_eq', if_neg hr]
+
+theorem stepOK_serveNowIdle (hi : AInv size rate arrivals a q.time outs) (g g' : EvId) (id : Int)
+    (h : a.port = .H g id q) (hr : ¬ 0 < rate) (hit : a.items = []) :
+    StepOK size rate arrivals a q outs
+      { a with port := .W g', bytes := a.bytes - (size id : Int), busy := false, bsz := 0, last := some q.time }
+      [(id, q.time)] := by
+  have htx := tx_eq_zero (size := size) hr id
+  refine ⟨⟨trivial, hi.src, hi.pend, ?_, ?_, ?_, ?_, hi.puts, hi.nput⟩, ?_, [.resume 0 0], [], by simp, ?_⟩
+  · intro _ hne; exact absurd hit hne
+  · intro d hd; cases hd; exact le_refl _
+  · apply due_of_sub hi.due
+    intro x hx
+    simp only [A.entries, PPhase.entries, List.nil_append] at hx
+    exact Or.inl (by simp [A.entries, hx])
+  · have := hi.ghost
+    simp only [pred, afterQ, h, hit, htx, add_zero, serve, serveEnd, List.append_nil, List.nil_append, List.append_assoc,
+      List.cons_append] at this ⊢
+    exact this
+  · simp [A.mu, h, PPhase.mu]; omega
+  · have hz : ¬ (Num.zero : ℚ) < rate := by rw [zero_eq']; exact hr
+    simp [Fifo.runActs, Fifo.step, toF, h, hit, Port.dev, Port.onResume, Port.onDone, cfg, hz, Fifo.proceed, Fifo.issueGet,
+      pktOf, Fifo.entered, Fifo.left]
+
+theorem stepOK_serveNowNext (hi : AInv size rate arrivals a q.time outs) (q' : QEntry ℚ) (g g' : EvId) (id i : Int)
+    (is : List Int) (h : a.port = .H g id q) (hr : ¬ 0 < rate) (hit : a.items = i :: is)
+    (ht : q'.time = q.time ∧ q'.prio = NORMAL) :
+    StepOK size rate arrivals a q outs
+      { a with port := .H g' i q', items := is, bytes := a.bytes - (size id : Int), busy := false, bsz := 0,
+               last := some q.time } [(id, q.time)] := by
+  have htx := tx_eq_zero (size := size) hr id
+  refine ⟨⟨ht, hi.src, hi.pend, ?_, ?_, ?_, ?_, hi.puts, hi.nput⟩, ?_, [.resume 0 0], [], by simp, ?_⟩
+  · intro hidle; simp [PPhase.idle] at hidle
+  · intro d hd; cases hd; exact le_refl _
+  · apply due_of_sub hi.due
+    intro x hx
+    simp only [A.entries, PPhase.entries, List.mem_append, List.mem_singleton] at hx ⊢
+    rcases hx with hx | hx
+    · exact Or.inr (by rw [hx, ht.1])
+    · exact Or.inl (Or.inr hx)
+  · have := hi.ghost
+    simp only [pred, afterQ, h, hit, htx, add_zero, serve, serveEnd, List.append_nil, List.nil_append, List.append_assoc,
+      List.cons_append] at this ⊢
+    exact this
+  · simp [A.mu, h, hit, PPhase.mu]; omega
+  · have hz : ¬ (Num.zero : ℚ) < rate := by rw [zero_eq']; exact hr
+    simp [Fifo.runActs, Fifo.step, toF, h, hit, Port.dev, Port.onResume, Port.onDone, cfg, hz, Fifo.proceed, Fifo.issueGet,
+      pktOf, Fifo.entered, Fifo.left]
+
 /-- accepted runs compose -/
 theorem runActs_append {δ : Type} (d : Dev ℚ δ) (as bs : List (FAct ℚ)) (s s1 s2 : FState ℚ δ)
     (i1 o1 i2 o2 : List Nat) (h1 : Fifo.runActs d s as = .ok (s1, i1, o1)) (h2 : Fifo.runActs d s1 bs = .ok (s2, i2, o2)) :
@@ -372,9 +423,9 @@ theorem runActs_append {δ : Type} (d : Dev ℚ δ) (as bs : List (FAct ℚ)) (s
         simp
 
 /-- **every configuration step is sound**: invariant kept, one unit of budget used, accepted by the LTS -/
-theorem astep_sound (hr : 0 < rate) {now : ℚ} {a' : A} {new : List (Int × ℚ)}
+theorem astep_sound {now : ℚ} {a' : A} {new : List (Int × ℚ)}
     (hi : AInv size rate arrivals a now outs) (hq : IsMin a q) (hs : AStep size rate a q a' new) :
-    AInv size rate arrivals a' q.time (outs ++ new) ∧ a'.mu + 1 = a.mu ∧
+    AInv size rate arrivals a' q.time (outs ++ new) ∧ a'.mu + 1 ≤ a.mu ∧
     ∃ acts insI, a'.putIds = a.putIds ++ insI ∧
       Fifo.runActs (Port.dev (cfg rate)) (toF size a now) acts =
         .ok (toF size a' q.time, insI.map Int.toNat, new.map (·.1.toNat)) := by
@@ -389,7 +440,9 @@ theorem astep_sound (hr : 0 < rate) {now : ℚ} {a' : A} {new : List (Int × ℚ
     | srcPutWait u q' id gap id' rest h hn hu ht ho => exact stepOK_srcPutWait hi' hq u q' id gap id' rest h hn hu ht ho
     | putIdle h hw => exact stepOK_putIdle hi' h hw
     | putHand q' g i is h hw hit ht => exact stepOK_putHand hi' q' g i is h hw hit ht
-    | serveTx q' g t id h _ ht => exact stepOK_serveTx hr hi' q' g t id h ht
+    | serveTx q' g t id h hr ht => exact stepOK_serveTx hr hi' q' g t id h ht
+    | serveNowIdle g g' id h hr hit => exact stepOK_serveNowIdle hi' g g' id h hr hit
+    | serveNowNext q' g g' id i is h hr hit ht => exact stepOK_serveNowNext hi' q' g g' id i is h hr hit ht
     | fireIdle t g id h hit => exact stepOK_fireIdle hi' t g id h hit
     | fireNext q' t g id i is h hit ht => exact stepOK_fireNext hi' q' t g id i is h hit ht
     | srcEnd h => exact stepOK_srcEnd hi' h
